@@ -413,6 +413,14 @@ class Engine:
         p = it.p
         m, ci, node, kind = self.find_target(c)
         env = self.spec_env(it, c, m, vals)
+        # a contract stated for a constant parameter value only speaks about calls with that value
+        for pn, b in c.params.items():
+            rc = getattr(b, 'recipe', None)
+            if rc and rc[0] == 'const' and pn in vals and not p.spec_mode:
+                same = it.ops.eq(vals[pn], rc[1]) if not isinstance(rc[1], (list, dict)) else True
+                if same is not True:
+                    p.oblige(f'call {c.qual}: parameter {pn} has the value the contract is stated for', same,
+                             kind='requires', where=f'{pn} == {rc[1]!r}')
         self.eval_lets(it, c, env, pre=True)
         guard = True
         for nm, ex in c.requires:
@@ -670,7 +678,11 @@ class Engine:
                 for ph in c.path_assumes:
                     path.assume(self.eval_clause(it, ph, env))
                 for nm, ex in c.ensures:
+                    ndec0 = len(path.decisions)
                     nob = len(path.obligs)
+                    # each postcondition is evaluated in its own scope: skolem indices, named terms and other
+                    # definitions it introduces are of no use to the next clause and only burden its VC
+                    scope = (len(path.pc), len(path.univ), dict(path.idx), len(path.sums))
                     try:
                         cl = self.eval_clause(it, ex, env)
                         path.oblige(f'{c.name}#{nm}', cl, kind='ensures', where=ex)
@@ -679,6 +691,12 @@ class Engine:
                         del path.obligs[nob:]
                         path.oblige(f'{c.name}#{nm}', False, kind='ensures',
                                     where=f'{ex}   [evaluation raised {pe.cls.name} on this path]')
+                    finally:
+                        if len(path.decisions) == ndec0:
+                            del path.pc[scope[0]:]
+                            del path.univ[scope[1]:]
+                            path.idx = scope[2]
+                            del path.sums[scope[3]:]
                 self.frame_obligations(it, c, path, env, old_env, pairs, old_to_live)
             elif outcome == 'loop-step':
                 pass
@@ -785,6 +803,46 @@ class Engine:
         backend = 'z3py-5.1'
         size = sum(1 for _ in axioms.walk(hy + [g])) if len(hy) < 400 else -len(hy)
         model = None
+        if r == z3.unknown:
+            # a subset of the hypotheses (the small ones) is often enough and much easier: sound, since fewer
+            # hypotheses can only make the goal harder to prove
+            small = [h for h in hy if sum(1 for _ in zip(range(71), axioms.walk([h]))) <= 70]
+            if len(small) < len(hy):
+                for mode in ('default', 'nlsat'):
+                    try:
+                        if mode == 'default':
+                            s2 = z3.Solver()
+                            s2.set('timeout', quick_ms)
+                            s2.add(*small)
+                            s2.add(z3.Not(g))
+                            if s2.check() == z3.unsat:
+                                r, backend = z3.unsat, 'z3py-5.1/small-hyps'
+                                break
+                        else:
+                            gl = z3.Goal()
+                            gl.add(*small)
+                            gl.add(z3.Not(g))
+                            tr = z3.TryFor(z3.Then('simplify', 'purify-arith', 'propagate-values', 'solve-eqs', 'qfnra-nlsat'),
+                                           quick_ms * 2)(gl)
+                            if len(tr) == 1 and len(tr[0]) == 1 and z3.is_false(tr[0][0]):
+                                r, backend = z3.unsat, 'z3py-5.1/nlsat-small-hyps'
+                    except z3.Z3Exception:
+                        pass
+        if r == z3.unknown:
+            # nonlinear real arithmetic: the nlsat pipeline often decides at once what the default solver does not
+            for last in ('qfnra-nlsat', 'smt'):
+                try:
+                    gl = z3.Goal()
+                    gl.add(*hy)
+                    gl.add(z3.Not(g))
+                    tr = z3.TryFor(z3.Then('simplify', 'purify-arith', 'propagate-values', 'solve-eqs', last),
+                                   min(self.vc_timeout_ms, 15000))(gl)
+                    if len(tr) == 1 and len(tr[0]) == 1 and z3.is_false(tr[0][0]):
+                        r = z3.unsat
+                        backend = 'z3py-5.1/' + last
+                        break
+                except z3.Z3Exception:
+                    pass
         if r == z3.unknown:
             # portfolio: the two CLI solvers side by side, then z3 5.1 again with the full budget
             rr, be = run_portfolio(s.to_smt2(), self.vc_timeout_ms)
